@@ -324,6 +324,11 @@ def run(run):
     sample = rng.sample(allc, min(len(allc), 1500 if run.tier == 'quick' else 6000))
     asc = sorted(sample, key=lambda c: rank.get(c[2], 9))
     orders = [('fewest-arguments-first', asc), ('most-arguments-first', asc[::-1])]
+    # the very first call of a function in the process has FEWER arguments than the later ones (and is no nested call): IF with two
+    # arguments before every IF with three; AND / OR of one argument before those of two and three
+    single = lambda c, f: c[0].count(f + '(') == 1 and not any(g + '(' in c[0] for g in ('IF', 'AND', 'OR', 'NOT') if g != f)
+    orders.append(('two-argument-IF-first', sorted(sample, key=lambda c: 0 if c[2] == 'if2' and single(c, 'IF') else 1)))
+    orders.append(('one-argument-AND-OR-first', sorted(sample, key=lambda c: 0 if c[2] == 'junc1' and (single(c, 'AND') or single(c, 'OR')) else 1)))
     for k in range(2):
         sh = list(sample)
         rng.shuffle(sh)
